@@ -111,6 +111,76 @@ func ZZ_C16_CopyUnknown() {
 	zzverif.Reach("done")
 }
 
+// ZZ_C16_CopyNested: as CopyUnknown, but the rewriting version builds the message as a *nested* field of
+// an outer message that has already written a field of its own (tag and value symbolic: the tag may
+// coincide with a tag of the copied message, tag spaces of different messages are independent), so the
+// destination neither starts at buffer offset 0 nor has an empty enclosing field stack. Added after
+// seeds C16-r4m1 (has-field test leaking into the enclosing message's table) and C16-r4m2 (copied
+// fields recorded at absolute buffer offsets).
+func ZZ_C16_CopyNested() {
+	kinds := zzverif.Param("KINDS")
+	n := zzverif.Param("N")
+	tags := make([]uint16, n)
+	vals := make([]zzVal, n)
+	for i := range tags {
+		tags[i] = zzverif.Uint16()
+	}
+	zzDistinct(tags...)
+	w := New(false)
+	src := w.Message()
+	for i := range tags {
+		vals[i] = zzDrawVal(kinds)
+		zzverif.Assert(vals[i].write(src.Field(tags[i])) == nil, "write-ok")
+	}
+	sb, err := src.Build()
+	zzverif.Assert(err == nil, "build-ok")
+	sm, _, err := types.ParseMessage(sb)
+	zzverif.Assert(err == nil, "parse-ok")
+
+	w2 := New(false)
+	outer := w2.Message()
+	// the outer message's own field reuses the first copied tag (the collision a has-field test that
+	// leaks into the enclosing table would trip over); the nested message sits under the next tag
+	ptag := tags[0]
+	zzverif.Assume(ptag != 65535)
+	ftag := ptag + 1
+	pval := zzDrawVal(kinds)
+	zzverif.Assert(pval.write(outer.Field(ptag)) == nil, "write-ok")
+	dst := outer.Field(ftag).Message()
+	known := make([]bool, n)
+	nvals := make([]zzVal, n)
+	for i := range tags {
+		known[i] = zzverif.Bool()
+		if known[i] {
+			nvals[i] = zzDrawVal(kinds)
+			zzverif.Assert(nvals[i].write(dst.Field(tags[i])) == nil, "write-ok")
+		}
+	}
+	if zzverif.Bool() {
+		zzverif.Assert(dst.Copy(sm) == nil, "copy-ok")
+	} else {
+		zzverif.Assert(dst.Merge(sm) == nil, "merge-ok")
+	}
+	zzverif.Assert(dst.End() == nil, "end-ok")
+	out, err := outer.Build()
+	zzverif.Assert(err == nil, "build-ok")
+	om, sz, err := types.ParseMessage(out)
+	zzverif.Assert(err == nil && sz == len(out), "result-parses-completely")
+	zzverif.Assert(om.Fields() == 2, "outer-field-count")
+	zzverif.Assert(pval.reads(om.Field(ptag)), "outer-field-intact")
+	pm := om.Message(ftag)
+	zzverif.Assert(pm.Fields() == n, "nested-field-count")
+	for i := range tags {
+		if known[i] {
+			zzverif.Assert(nvals[i].reads(pm.Field(tags[i])), "nested-known-field-keeps-destination-value")
+		} else {
+			zzverif.Assert(vals[i].reads(pm.Field(tags[i])), "nested-unknown-field-preserved")
+			zzverif.Reach("unknown-preserved")
+		}
+	}
+	zzverif.Reach("done")
+}
+
 // ZZ_C16_CopyBig: the unknown field is a payload of N bytes (around the 65535/65536 offset
 // boundary), written after a small known field; tags symbolic, so every tag order and both table
 // forms are covered. Reading under the new version and Copy through a writer that knows only the
